@@ -54,14 +54,17 @@ Inductive vop :=
 | VHCloseGet (h h2 : nat) (u : string) (is6 : bool) (ip : string)
 | VExpire (u : string) (is6 : bool) (ip : string)
 | VExpireGet (u : string) (is6 : bool) (ip : string) (h : nat)
-| VMuxClose | VCloseWait | VCensus | VCleanup.
+| VMuxClose | VCloseWait | VCensus | VCleanup
+| VFirstPark (cid : nat) (m : first_msg)   (* an ok first frame; handleConn then parked just before AddConn *)
+| VRelease (cid : nat).                  (* ... and let go *)
 
 (* an observation: up to two result slots (second slot: client view / second half of a compound) *)
 Record vobs := mkO { o1 : out; o2 : out }.
 
 Record lconn := mkL {
   l_id : nat; l_raddr : string; l_is6 : bool; l_lip : string; l_aok : bool;
-  l_st : nat;                 (* 0 pending, 1 rejected, 2 routed, 3 unspecified (address error paths) *)
+  l_st : nat;                 (* 0 pending, 1 rejected, 2 routed, 3 unspecified (address error paths),
+                                 4 routed but its handleConn is parked before AddConn (not attached yet) *)
   l_ufrag : string; l_gen : nat;
   l_sure : bool;              (* certainly attached *)
   l_msgs : list string;       (* sent and not yet delivered, in order *)
@@ -193,7 +196,8 @@ Definition do_expire (m : mstate) u is6 ip (res : out) : mstate :=
   if is_ok res then end_gens m (key_is u is6 ip) else m.
 
 Definition blockers (m : mstate) : bool :=
-  existsb (fun c => Nat.eqb (l_st c) 0) (m_conns m) || existsb (fun k => k_alive k && k_post k) (m_keys m).
+  existsb (fun c => Nat.eqb (l_st c) 0 || Nat.eqb (l_st c) 4) (m_conns m)
+  || existsb (fun k => k_alive k && k_post k) (m_keys m).
 
 Definition do_close_status (m : mstate) (res : out) : mstate :=
   match res with
@@ -388,6 +392,43 @@ Definition mon_step (ft wbuf laddr : bool) (m : mstate) (o : vop) (ob : vobs) : 
     | _ => m
     end
   | VCleanup => fail_if (negb (is_ok (o1 ob))) "cleanup_leak" m
+  | VFirstPark cid fm =>
+    (* the lookup happened (the key's generation starts or is joined); the connection is not in the
+       packet conn's table yet, so nothing is demanded of it until it is released *)
+    match find_conn m cid with
+    | Some c =>
+      if negb (Nat.eqb (l_st c) 0) then m else
+      match classify fm with
+      | FOk u b =>
+        let alive := match find_key m u (l_is6 c) (l_lip c) with Some k => k_alive k | None => false end in
+        let m := if alive then m else
+          match find_key m u (l_is6 c) (l_lip c) with
+          | Some k => put_key m (mkK u (l_is6 c) (l_lip c) (S (k_gen k)) true false 0 (m_closed m))
+          | None => put_key m (mkK u (l_is6 c) (l_lip c) 1 true false 0 (m_closed m))
+          end in
+        let g := match find_key m u (l_is6 c) (l_lip c) with Some k => k_gen k | None => 0 end in
+        let m := put_conn m (mkL cid (l_raddr c) (l_is6 c) (l_lip c) (l_aok c) 4 u g false [b] false false [] false (l_cli_closed c)) in
+        fail_if (is_view_closed (o1 ob)) "route_closed" m
+      | _ => m
+      end
+    | None => m
+    end
+  | VRelease cid =>
+    (* AddConn runs now: if the packet conn chosen at the lookup has ended in the meantime the TCP
+       connection must be closed (C15_routing_attach_failure), otherwise it is attached *)
+    match find_conn m cid with
+    | Some c =>
+      if negb (Nat.eqb (l_st c) 4) then m else
+      let cur := gen_alive m (l_ufrag c) (l_is6 c) (l_lip c) (l_gen c) in
+      let dup := existsb (fun x => Nat.eqb (l_st x) 2 && String.eqb (l_raddr x) (l_raddr c)
+                                   && conn_key_is x (l_ufrag c) (l_is6 c) (l_lip c) && Nat.eqb (l_gen x) (l_gen c)) (m_conns m) in
+      let c' := mkL cid (l_raddr c) (l_is6 c) (l_lip c) (l_aok c) 2 (l_ufrag c) (l_gen c) (cur && negb dup) (l_msgs c)
+                    false (negb cur) [] dup (l_cli_closed c) in
+      let m := put_conn m c' in
+      let m := fail_if (negb cur && is_view_open (o1 ob)) "teardown_conn_open" m in
+      fail_if (cur && negb dup && is_view_closed (o1 ob)) "route_closed" m
+    | None => m
+    end
   end.
 
 Definition mon_run (ft wbuf laddr : bool) (tr : list (vop * vobs)) : mstate :=
